@@ -310,6 +310,81 @@ def clause_c(facts, rep):
     rep.require(m >= 1, 'C18.c: operator!= not found')
 
 
+def clause_eq_model(facts, rep, tier):
+    """DNode::operator== decided against JSON value equality by exhaustive exploration (sv/eq_model.py): its CFG is
+    interpreted for every ordered pair of trees of a universe made of all leaf kinds (numbers of the three kinds,
+    strings with each storage flag, booleans, null), all arrays of <= 2 and all objects of <= 2 members (both key
+    orders) over them, and a second level of containers over representative first-level trees (permuted nested
+    objects included).  Reading a member / element at or behind the end of its block is undefined behaviour in the
+    model."""
+    from .. import eq_model as em
+    from ..eq_model import N
+    from ..minterp import Unsupported, UndefinedBehaviour
+    import itertools
+    tags = {}
+    for en in facts.enums:
+        if en.get('qn', '').endswith('TypeFlag'):
+            for c in en.get('values', []):
+                tags[c['name']] = int(c['v'])
+        if en.get('qn', '').endswith('TypeInfo'):
+            for c in en.get('values', []):
+                if c['name'] == 'kBasicTypeMask':
+                    tags['kBasicTypeMaskValue'] = int(c['v'])
+    fns = [f for f in facts.functions if f.short == 'operator==' and (f.cls_qn or '').startswith('sonic_json::DNode') and len(f.params) == 1
+           and 'DNode' in f.params[0]['t']]
+    rep.require(len(fns) >= 1 and 'kObject' in tags, 'C18: DNode::operator== / TypeFlag not found')
+    U = lambda v: (lambda: N('uint', v))
+    S = lambda v, fl='copy': (lambda: N('str', v, None, fl))
+    leaves = [U(1), U(2), lambda: N('sint', -1), lambda: N('real', '1.0'), S('a'), S('a', 'const'), S('b', 'free'), lambda: N('null'), lambda: N('true'), lambda: N('false')]
+    small = [U(1), U(2), S('a'), lambda: N('null')] if tier == 'quick' else leaves[:7]
+
+    def containers(items, maxk=2):
+        out = []
+        for k in range(0, maxk + 1):
+            for combo in itertools.product(items, repeat=k):
+                out.append(lambda combo=combo: N('arr', None, [c() for c in combo]))
+                for keys in itertools.permutations(['a', 'b', 'c'][:max(k, 2)], k):
+                    out.append(lambda combo=combo, keys=keys: N('obj', None, [x for kk, c in zip(keys, combo) for x in (N('str', kk), c())]))
+        return out
+    level1 = containers(small)
+    reps = [lambda: N('arr'), lambda: N('obj'), lambda: N('arr', None, [N('uint', 1)]), lambda: N('obj', None, [N('str', 'a'), N('uint', 1)]),
+            lambda: N('obj', None, [N('str', 'a'), N('uint', 1), N('str', 'b'), N('uint', 2)]),
+            lambda: N('obj', None, [N('str', 'b'), N('uint', 2), N('str', 'a'), N('uint', 1)]), U(1)]
+    level2 = containers(reps)
+    # three members in every order against each other: the lookup must not depend on position
+    three = [lambda p=p: N('obj', None, [x for kk in p for x in (N('str', kk), N('uint', ord(kk)))]) for p in itertools.permutations('abc')]
+    three += [lambda p=p: N('obj', None, [x for kk in p for x in (N('str', kk), N('uint', 7))]) for p in itertools.permutations('abd')]
+    groups = [('leaves', leaves + level1[:40]), ('containers of <= 2 over leaves', level1), ('nested containers', level2), ('three members, every order', three)]
+    for f in (fns if tier == 'thorough' else fns[:1]):
+        rep.fn(f)
+        E = em.Eq(f, None, facts, tags)
+        bad = None
+        n = 0
+        try:
+            for gname, univ in groups:
+                for a in univ:
+                    for b in univ:
+                        x, y = a(), b()
+                        try:
+                            r = E.run(f, x, y)
+                        except UndefinedBehaviour as ex:
+                            bad = '%s == %s: %s' % (x, y, ex)
+                            break
+                        n += 1
+                        if bool(r) != em.json_eq(x, y):
+                            bad = '(%s == %s) = %s, JSON value equality says %s' % (x, y, bool(r), em.json_eq(x, y))
+                            break
+                    if bad:
+                        break
+                if bad:
+                    break
+        except Unsupported as ex:
+            raise AnalysisBroken('C18: operator== cannot be interpreted: %s' % ex)
+        rep.extra['equality_pairs_explored'] = rep.extra.get('equality_pairs_explored', 0) + n
+        rep.check(bad is None, 'E6.equality', f.qn, 'operator== equals JSON value equality on %d ordered pairs of trees (%d interpreted comparisons incl. nested)' % (n, E.calls),
+                  f.loc, bad or '', facts.config)
+
+
 def run(rep, tier):
     configs = ['K1'] if tier == 'quick' else ['K1', 'K3', 'K7']
     for cfg in configs:
@@ -318,6 +393,7 @@ def run(rep, tier):
         clause_a(facts, rep)
         clause_b(facts, rep)
         clause_c(facts, rep)
+        clause_eq_model(facts, rep, tier)
         # operator== looks members up in the other operand: equality is independent of a lookup map only if the map
         # is kept faithful by every mutator (shared with C12 clause b) and ordered consistently (shared with C14)
         from . import c12, c14
